@@ -26,10 +26,10 @@ import (
 
 // letters of the request alphabet
 const (
-	t1A = iota // type 1, issuer key A
-	t1B        // type 1, issuer key B
-	t1Unknown  // type 1, truncated key id that no configured issuer has
-	t1Bad      // type 1, key A, blinded element of the right length that is not a curve point
+	t1A       = iota // type 1, issuer key A
+	t1B              // type 1, issuer key B
+	t1Unknown        // type 1, truncated key id that no configured issuer has
+	t1Bad            // type 1, key A, blinded element of the right length that is not a curve point
 	t2A
 	t2B
 	t2Unknown
